@@ -782,8 +782,7 @@ class FrameTask(AstTask):
                 chain = []
                 for (o, f), ents in an.prov.items():
                     for b in pts:
-                        if b in (an.result_state.heap.get((o, f), frozenset()) if an.result_state else frozenset()) \
-                                or any(describe(b) in x for x in ents):
+                        if b[0] == 'rf' and any(('self.%s' % b[1]) in x.split('=', 1)[-1] for x in ents):
                             chain.extend(ents)
                 model['alias_created_at'] = sorted(set(chain))[:6]
                 must = len(pts) == 1
